@@ -92,10 +92,12 @@ def run(tier, seed):
         rep.sample({"fn": e["fn"], "code": e["code"], "outcome": e["outcome"], "value": e["value"][:80]})
     # ---- binding self-tests: a failing example / a changed parent / a dropped example must be rejected by the trace spec
     tests = {}
-    victim = next(i for i, e in enumerate(rows) if e["ev"] == "example" and not e["mentions_env"] and e["fn"] != "args")
+    # (relative to the verdict on the unmodified trace: the self-tests must not mask real findings)
+    victim = next(i for i, e in enumerate(rows) if e["ev"] == "example" and not e["mentions_env"] and e["fn"] != "args"
+                  and e["outcome"] == "ok" and (i + 1) not in bad_lines)
     t1 = [dict(e) for e in rows]
     t1[victim]["outcome"], t1[victim]["kind"] = "runtime", "DivisionByZero"
-    tests["failing_example_rejected"] = sorted(set(judge(t1, d, "self1.ndjson")["bad_lines"])) == [victim + 1]
+    tests["failing_example_rejected"] = sorted(set(judge(t1, d, "self1.ndjson")["bad_lines"])) == sorted(set(bad_lines + [victim + 1]))
     t2 = [dict(e) for e in rows]
     t2[victim]["parent"] = "v0:0"
     tests["changed_parent_rejected"] = (victim + 1) in judge(t2, d, "self2.ndjson")["bad_lines"]
